@@ -280,6 +280,22 @@ Theorem C15_collapse_to_base_boundary_edge_merge_keeps_wf2 `{Sig} : forall E n k
 Proof. exact collapse_to_base_boundary_inner_wf. Qed.
 Print Assumptions C15_collapse_to_base_boundary_edge_merge_keeps_wf2.
 
+(** Collapse to the midpoint of a boundary edge l (no right side) with triangle l -> a -> b whose other sides are glued
+    to A2 and B2: the three darts disappear, B2 | A2 are glued, nothing else changes (the boundary counterpart of
+    C15_collapse_midpoint_topology).  On every store. *)
+Theorem C15_collapse_midpoint_boundary_edge_topology `{Sig} : forall E n ks l a b b0r b1r c w cnt vid w' cnt',
+  let A2 := beta w 2 a in let B2 := beta w 2 b in
+  NoDup [l; a; b; A2; B2] -> ~ In 0 [l; a; b; A2; B2] ->
+  beta w 1 l = a -> beta w 1 a = b -> beta w 1 b = l -> beta w 2 l = 0 ->
+  run E (collapse_edge_to_midpoint n ks b l a b0r 0 b1r) c w cnt = (Done vid, w', cnt') ->
+  (forall i y, beta w' i y =
+     if (y =? l) || (y =? a) || (y =? b) then (if i <? 3 then 0 else beta w i y)
+     else if i =? 2 then (if y =? B2 then A2 else if y =? A2 then B2 else beta w 2 y)
+     else beta w i y) /\
+  (forall y, unused w' y = if (y =? l) || (y =? a) || (y =? b) then true else unused w y).
+Proof. exact collapse_to_midpoint_boundary. Qed.
+Print Assumptions C15_collapse_midpoint_boundary_edge_topology.
+
 (** Non-vacuity: the unit square split in two triangles 1 -> 2 -> 3 and 4 -> 5 -> 6 glued along 3 | 4 (the mesh of the
     repaired defect) meets the premises of the boundary theorems with (pe, e, ne) = (3, 1, 2) -- both other sides of the
     first triangle are on the boundary, pe is glued to 4 -- and those of the interior theorems with (pe, e, ne) = (1, 2, 3):
